@@ -49,8 +49,106 @@ def check(dist, x, c, who, ctx, grad_params=True, grad_x=True):
     return True
 
 
+# ---------------------------------------------------------------------------------------------------
+# named families and mixtures ("every distribution"): log_prob never NaN, finite => finite gradients
+# ---------------------------------------------------------------------------------------------------
+KINDS = ["bulk", "tail", "edge", "edge+", "edge-", "outside"]
+GUMBEL_OVERFLOW = 85.0 if bd.shim.F32 else 700.0  # exp(-z) overflows beyond: see the open finding C18|Mixture[Gumbel]|component_overflow
+
+
+def _family_points(fam, pb, ev, kinds, z):
+    from vf.props import c05
+    n = int(np.prod(ev)) if ev else 1
+    kk = np.asarray([kinds[i % len(kinds)] for i in range(n)]).reshape(ev)
+    zz = np.asarray([z[i % len(z)] * (1 + 0.13 * (i // len(z))) for i in range(n)]).reshape(ev)
+    x = np.zeros(ev, np.float64)
+    for kd in set(kk.reshape(-1).tolist()):
+        x = np.where(kk == kd, np.broadcast_to(c05.support_point(fam, pb, kd, zz), ev), x)
+    if bd.shim.F32:
+        x = x.astype(np.float32).astype(np.float64)
+    return x, kk
+
+
+def oracle_family(case, ctx):
+    from vf.props import c05
+    c = case["c"]
+    fam = c["fam"]
+    if fam == "Mixture":
+        return oracle_mixture(case, ctx)
+    shapes = [tuple(s) for s in c["shapes"]]
+    p = c05.params_for(fam, shapes, c05.cyc(c["vals"]))
+    dist = lib_call(f"C18|dist|{fam}|construct", c05.construct, fam, p)
+    ev = np.broadcast_shapes(*[np.shape(v) for v in p.values()])
+    pb = {k: np.broadcast_to(v, ev) for k, v in p.items()}
+    x, kk = _family_points(fam, pb, ev, c["kinds"], c["z"])
+    finite = check(dist, x, None, f"dist|{fam}", ctx)
+    ctx.hist("family", fam)
+    for kd in set(kk.reshape(-1).tolist()):
+        ctx.hist("family_point_class", kd)
+    if finite and any(k != "bulk" for k in kk.reshape(-1).tolist()):
+        ctx.mark_nontrivial(case)
+
+
+def oracle_mixture(case, ctx):
+    from flowjax import distributions as D
+    from vf.props import c05
+    c = case["c"]
+    fam, k, ev = c["comp"], int(c["k"]), tuple(c["ev"])
+    shp = (k,) + ev
+    p = c05.params_for(fam, [shp, shp, shp], c05.cyc(c["vals"]))
+    p = {kk: (np.clip(v, 0.05, 20) if kk in ("scale", "rate") else v) for kk, v in p.items()}
+    if fam == "Uniform":
+        p["maxval"] = p["minval"] + np.clip(p["maxval"] - p["minval"], 0.05, 20)
+    w = np.exp(np.asarray(c["w"], np.float64) * 2.3)
+    comp = eqx.filter_vmap(lambda q: c05.construct(fam, q))({kk: jnp.asarray(v) for kk, v in p.items()})
+    mix = lib_call("C18|dist|Mixture|construct", D.VmapMixture, comp, jnp.asarray(w))
+    j = int(c["around"]) % k  # points are placed relative to component j: inside it, on its edges, outside its support
+    pj = {kk: v[j] for kk, v in p.items()}
+    x, kinds = _family_points(fam, pj, ev, c["kinds"], c["z"])
+    who = f"dist|Mixture[{fam}]"
+    if fam == "Gumbel" and np.any((x - p["loc"]) / p["scale"] < -GUMBEL_OVERFLOW):
+        # open finding: a component whose own log-density overflows to -inf has an infinite gradient, which the
+        # logsumexp multiplies by a zero weight.  Excluded by construction (and counted) so the search goes on.
+        ctx.exclude("gumbel_mixture_component_overflow")
+        who = f"dist|Mixture[Gumbel]|component_overflow"
+    finite = check(mix, x, None, who, ctx)
+    ctx.hist("family", f"Mixture[{fam}]")
+    if finite and any(kd != "bulk" for kd in kinds.reshape(-1).tolist()):
+        ctx.mark_nontrivial(case)
+
+
+def gumbel_mixture_probe(spec, ctx):
+    """Probe of the open finding: VmapMixture of Gumbel(loc=[0, far], scale=1) at x = 0."""
+    from flowjax import distributions as D
+    comp = eqx.filter_vmap(D.Gumbel)(jnp.asarray(spec["loc"], float), jnp.asarray(spec["scale"], float))
+    mix = D.VmapMixture(comp, jnp.asarray(spec["weights"], float))
+    check(mix, np.asarray(spec["x"], np.float64), None, "dist|Mixture[Gumbel]|component_overflow", ctx)
+
+
+def family_cases():
+    from vf.props import c05
+
+    @st.composite
+    def f(draw):
+        if draw(st.integers(0, 2)) == 0:
+            c = draw(c05.mixture_cases())
+            c["kinds"] = draw(st.lists(st.sampled_from(KINDS), min_size=2, max_size=2))
+            c["around"] = draw(st.integers(0, 4))
+        else:
+            c = draw(c05.family_cases())
+        return {"kind": "family", "c": c}
+    return f()
+
+
 def oracle(case, ctx):
     ctx.evaluated()
+    if case.get("kind") == "gumbel_mixture_probe":
+        return gumbel_mixture_probe(case, ctx)
+    if case.get("kind") == "family":
+        oracle_family(case, ctx)
+        if ctx.evaluations % 37 == 1:
+            ctx.sample(case)
+        return
     s = bc.prepare(case)
     inp = case["inp"]
     pool = list(s.pool) + BIG
@@ -104,6 +202,7 @@ def bnaf_activation_cases():
 def run(ctx):
     q = ctx.tier == "quick"
     run_hypothesis(ctx, bnaf_activation_cases(), oracle, 10 if q else 60, "C18-bnaf-activations")
+    run_hypothesis(ctx, family_cases(), oracle, 40 if q else 400, "C18-families")
     run_hypothesis(ctx, bc.leaf_cases(inv=False), oracle, 50 if q else 600, "C18-leaves")
     run_hypothesis(ctx, bc.tree_cases(3, 7, inv=False) if q else bc.tree_cases(4, 12, inv=False), oracle, 12 if q else 150,
                    "C18-trees")
